@@ -1,3 +1,3 @@
 SPECIFICATION Spec
-INVARIANTS Theorems SemiNaiveCorrect DesugarCorrect Emit EmitPlan
+INVARIANTS Theorems SemiNaiveCorrect DesugarCorrect CodePlanCorrect EmitCover Emit EmitPlan
 CHECK_DEADLOCK FALSE
